@@ -2,8 +2,10 @@ import Proofs.ParseOpt
 /-! Render-then-parse of a whole message, now with the EDNS OPT record (no padding, no TSIG). -/
 namespace Model
 
+variable {Rs : RelSpec}
+
 /-- well-formed message (absolute names, not an update, no TSIG, no padding request), with or without OPT -/
-structure MsgOkE (m : Message) : Prop where
+structure MsgOkE (Rs : RelSpec) (m : Message) : Prop where
   origin : m.origin = none
   id : m.id < 65536
   flags : m.flags < 65536
@@ -11,10 +13,10 @@ structure MsgOkE (m : Message) : Prop where
   opt : ∀ o, m.opt = some o → OptOk o
   pad : m.pad = 0
   noTsig : m.tsig = none
-  q : ∀ r ∈ m.q, QOk r
-  an : ∀ r ∈ m.an, RRsetOk r
-  au : ∀ r ∈ m.au, RRsetOk r
-  ad : ∀ r ∈ m.ad, RRsetOk r
+  q : ∀ r ∈ m.q, QOk Rs r
+  an : ∀ r ∈ m.an, RRsetOk Rs r
+  au : ∀ r ∈ m.au, RRsetOk Rs r
+  ad : ∀ r ∈ m.ad, RRsetOk Rs r
   keysAn : m.an.Pairwise (fun a b => keyMatch b.name b.rdclass b.rdtype b.covers none a = false)
   keysAu : m.au.Pairwise (fun a b => keyMatch b.name b.rdclass b.rdtype b.covers none a = false)
   keysAd : m.ad.Pairwise (fun a b => keyMatch b.name b.rdclass b.rdtype b.covers none a = false)
@@ -22,14 +24,14 @@ structure MsgOkE (m : Message) : Prop where
 
 /-- questions and the record sets of the three sections, read from `H ++ items ++ post` -/
 theorem parse_body (cfg : PCfg) (horg : cfg.origin = none) (hnorr : cfg.oneRRPerRRset = false) (m : Message)
-    (hq0 : ∀ r ∈ m.q, QOk r) (han : ∀ r ∈ m.an, RRsetOk r) (hau : ∀ r ∈ m.au, RRsetOk r) (had : ∀ r ∈ m.ad, RRsetOk r)
+    (hq0 : ∀ r ∈ m.q, QOk Rs r) (han : ∀ r ∈ m.an, RRsetOk Rs r) (hau : ∀ r ∈ m.au, RRsetOk Rs r) (had : ∀ r ∈ m.ad, RRsetOk Rs r)
     (kan : m.an.Pairwise (fun a b => keyMatch b.name b.rdclass b.rdtype b.covers none a = false))
     (kau : m.au.Pairwise (fun a b => keyMatch b.name b.rdclass b.rdtype b.covers none a = false))
     (kad : m.ad.Pairwise (fun a b => keyMatch b.name b.rdclass b.rdtype b.covers none a = false))
     (H : Bytes) (hH : H.length = 12) (q : Bytes × CTable) (hq : itemsExt none 12 [] m.items = .ok q)
     (post : Bytes) (c1 c2 c3 : Nat) :
-    ∃ qs' an' au' ad', SimList RRset.sim qs' m.q ∧ SimList RRset.sim an' m.an ∧ SimList RRset.sim au' m.au ∧
-      SimList RRset.sim ad' m.ad ∧ TableSound NameEqv (H ++ q.1) q.2 ∧
+    ∃ qs' an' au' ad', SimList (RRset.sim Rs) qs' m.q ∧ SimList (RRset.sim Rs) an' m.an ∧ SimList (RRset.sim Rs) au' m.au ∧
+      SimList (RRset.sim Rs) ad' m.ad ∧ TableSound Rs.R (H ++ q.1) q.2 ∧
       ∃ k1 k2 k3 : Nat,
         parseQuestions cfg false (H ++ q.1 ++ post) m.q.length { cur := 12 } = .ok { cur := k1, q := qs' } ∧
         parseSection cfg false (H ++ q.1 ++ post) 1 c1 (rrCount m.an) 0 { cur := k1, q := qs' }
@@ -77,7 +79,7 @@ theorem parse_body (cfg : PCfg) (horg : cfg.origin = none) (hnorr : cfg.oneRRPer
           -- authority
           have hlA2 : (H ++ qq.1 ++ qa.1).length = 12 + (qq.1 ++ qa.1).length := by simp [hH] <;> omega
           rw [← hlA2] at hqu
-          have hsnda' : TableSound NameEqv (H ++ qq.1 ++ qa.1) ([] ++ (qq.2 ++ qa.2)) := by
+          have hsnda' : TableSound Rs.R (H ++ qq.1 ++ qa.1) ([] ++ (qq.2 ++ qa.2)) := by
             simpa [List.append_assoc] using hsnda
           obtain ⟨au', hpu, hsu, hsndu⟩ := parseSection_rrsets cfg horg hnorr 2 m.au (H ++ qq.1 ++ qa.1) (qd.1 ++ post)
             ([] ++ (qq.2 ++ qa.2)) qu c2 0
@@ -90,7 +92,7 @@ theorem parse_body (cfg : PCfg) (horg : cfg.origin = none) (hnorr : cfg.oneRRPer
           -- additional
           have hlA3 : (H ++ qq.1 ++ qa.1 ++ qu.1).length = 12 + (qq.1 ++ qa.1 ++ qu.1).length := by simp [hH] <;> omega
           rw [← hlA3] at hqd
-          have hsndu' : TableSound NameEqv (H ++ qq.1 ++ qa.1 ++ qu.1) ([] ++ (qq.2 ++ qa.2 ++ qu.2)) := by
+          have hsndu' : TableSound Rs.R (H ++ qq.1 ++ qa.1 ++ qu.1) ([] ++ (qq.2 ++ qa.2 ++ qu.2)) := by
             simpa [List.append_assoc] using hsndu
           obtain ⟨ad', hpd, hsd, hsndd⟩ := parseSection_rrsets cfg horg hnorr 3 m.ad (H ++ qq.1 ++ qa.1 ++ qu.1) post
             ([] ++ (qq.2 ++ qa.2 ++ qu.2)) qd c3 0
@@ -114,6 +116,8 @@ theorem parse_body (cfg : PCfg) (horg : cfg.origin = none) (hnorr : cfg.oneRRPer
 end Model
 
 namespace Model
+
+variable {Rs : RelSpec}
 
 def hdrBytes (m : Message) (c3 : Nat) : Bytes :=
   u16 m.id ++ u16 m.flags ++ u16 m.q.length ++ u16 (rrCount m.an) ++ u16 (rrCount m.au) ++ u16 c3
@@ -232,6 +236,8 @@ end Model
 
 namespace Model
 
+variable {Rs : RelSpec}
+
 theorem parse_header (m : Message) (c3 : Nat) (rest : Bytes) :
     slice (hdrBytes m c3 ++ rest) 0 2 = u16 m.id ∧ slice (hdrBytes m c3 ++ rest) 2 2 = u16 m.flags ∧
     slice (hdrBytes m c3 ++ rest) 4 2 = u16 m.q.length ∧ slice (hdrBytes m c3 ++ rest) 6 2 = u16 (rrCount m.an) ∧
@@ -251,9 +257,9 @@ theorem parse_header (m : Message) (c3 : Nat) (rest : Bytes) :
       (by simp [hdrBytes, List.append_assoc]) _ _ rfl rfl
 
 /-- render-then-parse: absolute names, any opcode but UPDATE, with or without the EDNS OPT record -/
-theorem parse_toWire_opt (m : Message) (lim : Nat) (w : Bytes) (hok : MsgOkE m) (h : m.toWire lim false = .ok w)
+theorem parse_toWire_opt (m : Message) (lim : Nat) (w : Bytes) (hok : MsgOkE Rs m) (h : m.toWire lim false = .ok w)
     (cfg : PCfg) (horg : cfg.origin = none) (hnorr : cfg.oneRRPerRRset = false) :
-    ∃ m', parseMessage cfg w = .ok m' ∧ m'.sim m := by
+    ∃ m', parseMessage cfg w = .ok m' ∧ m'.sim Rs m := by
   obtain ⟨q, hq, hshape⟩ := toWire_shape_opt m lim w hok.pad hok.noTsig h
   rw [hok.origin] at hq
   obtain ⟨cq, can, cau, cad⟩ := hok.counts
@@ -291,7 +297,7 @@ theorem parse_toWire_opt (m : Message) (lim : Nat) (w : Bytes) (hok : MsgOkE m) 
     -- the OPT record
     have hlA : (hdrBytes m (rrCount m.ad + 1) ++ q.1).length = 12 + q.1.length := by simp [hdrBytes_length]
     rw [← hlA] at hp
-    obtain ⟨hpo, _, _⟩ := parseRR_opt cfg horg (hdrBytes m (rrCount m.ad + 1) ++ q.1) [] q.2 o p (rrCount m.ad + 1)
+    obtain ⟨hpo, _, _⟩ := parseRR_opt cfg horg false (hdrBytes m (rrCount m.ad + 1) ++ q.1) [] q.2 o p (rrCount m.ad + 1)
       (0 + rrCount m.ad) { cur := 12 + q.1.length, q := qs', an := an', au := au', ad := ad' }
       (by simp [hdrBytes_length]) hsnd (hok.opt o hopt) rfl hp
     have hw3 : hdrBytes m (rrCount m.ad + 1) ++ q.1 ++ p.1 ++ [] = w := by rw [hshape]; simp
